@@ -51,6 +51,11 @@ func Generate(o Options) Package {
 	for _, t := range []Ty{U64, U32, U8} {
 		pieces = append(pieces, piece{"id_" + t.K, fmt.Sprintf("func id_%s(x %s) %s {\n\treturn x\n}\n", t.K, t.Go(), t.Go())})
 	}
+	// a recursive helper (self call through the recursive binder) and a pair of mutually recursive ones
+	pieces = append(pieces, piece{"recsum", "func recsum(n byte, acc uint64) uint64 {\n\tif n == 0 {\n\t\treturn acc\n\t}\n\treturn recsum(n-1, acc+uint64(n)*uint64(n))\n}\n"})
+	pieces = append(pieces, piece{"evenq", "func evenq(n uint64) bool {\n\tif n == 0 {\n\t\treturn true\n\t}\n\treturn oddq(n - 1)\n}\n"})
+	pieces = append(pieces, piece{"oddq", "func oddq(n uint64) bool {\n\tif n == 0 {\n\t\treturn false\n\t}\n\treturn evenq(n - 1)\n}\n"})
+	g.funcs = append(g.funcs, FuncSig{Name: "recsum", Params: []Var{{Name: "n", T: U8}, {Name: "acc", T: U64}}, Results: []Ty{U64}, Pure: false})
 	// functions
 	for i := 0; i < o.Funcs; i++ {
 		g.sb.Reset()
